@@ -671,6 +671,21 @@ async fn handler_seq(req: &mut Req<'_>, st: &mut HState) -> io::Result<ExitStatu
                 return Err(e);
             }
         }
+        // re-selecting the stream that is active already is allowed at any time and keeps whatever is buffered
+        // (left over from fill_buf + partial consume, or read ahead by writeable())
+        if let Some(cur) = st.active {
+            if st.chance(1, 12) {
+                let t = RecordType::try_from(st.streams[cur]).expect("type");
+                st.ev("h_reselect", cur as u64, 0);
+                let r = guard(|| req.set_stream(t));
+                if let Err(p) = r {
+                    st.fail(Violation::new("c18_selection", "async_reselect", format!("re-selecting the active stream {t:?} panicked: {p}")));
+                }
+                vcheck_h(st, req.active_stream() == Some(t), "c18_selection", "re-selecting the active stream changed the selection");
+                st.probe("async_reselect_current");
+                st.sample_writeable(req);
+            }
+        }
         // a read that is polled once and abandoned if not ready (timeout / select! / now_or_never in a real handler)
         let w_try = if can_read && read_plan != 2 { 1 } else { 0 };
         // after an abandoned read the request may still hold the output lock (kept "until a subsequent call wrote a
@@ -833,6 +848,22 @@ async fn handler_writers(req: &mut Req<'_>, st: &mut HState) -> io::Result<ExitS
     let results = Join::new(world.clone(), futs).await;
     for r in results {
         r?;
+    }
+    if st.active.is_some() && st.chance(1, 4) {
+        // a last read that is polled once and abandoned when it is not ready: the request may be left in the
+        // middle of flushing a management reply (holding the output lock); close() has to finish that record
+        let mut buf = [0u8; 8];
+        st.ev("h_try_read", 8, 0);
+        let r = poll_fn(|cx| std::task::Poll::Ready(Pin::new(&mut *req).poll_read(cx, &mut buf))).await;
+        match r {
+            std::task::Poll::Ready(Ok(n)) => { st.record_read(n, &buf, 8); }
+            std::task::Poll::Ready(Err(e)) => {
+                let k = kind_name(&e);
+                st.with(|w, inv| inv.errors.push((k, "read".into(), w.read_pos)));
+                return Err(e);
+            }
+            std::task::Poll::Pending => { st.probe("read_abandoned_while_pending"); }
+        }
     }
     let (s, name) = exit_status(st);
     st.with(|_, inv| inv.status = Some(name));
@@ -1280,8 +1311,18 @@ pub const C08_PROBES: &[&str] = &[
     "suspension_points_checked",
 ];
 
+/// C08 with a duplex handler: writer sub-tasks hold the output lock across Pending writes while a reader
+/// sub-task is suspended in a read and the closed-loop peer sends a query.
+pub fn c08_duplex(cx: &mut Ctx) -> VResult {
+    c08_mode(cx, HandlerMode::Writers)
+}
+
 /// C08: closed-loop peer, strict executor (no spurious polls).
 pub fn c08(cx: &mut Ctx) -> VResult {
+    c08_mode(cx, HandlerMode::Seq)
+}
+
+fn c08_mode(cx: &mut Ctx, hmode: HandlerMode) -> VResult {
     cx.declare(F_TRANSPORT, P_BASE);
     cx.declare(&["peer_withhold"], C08_PROBES);
     let o = PlanOpts { max_reqs: 3, noise: 2 + cx.ch.pick(4), closed_loop: true, abort: false, small_buf_bias: cx.ch.chance(1, 2), force_keep: false, either_noise: false };
@@ -1300,7 +1341,7 @@ pub fn c08(cx: &mut Ctx) -> VResult {
     let knobs = gen_knobs(cx, false, plan.wire.len());
     let inner = take_cx(cx);
     let triggers: Vec<usize> = plan.replies.iter().filter(|r| !reply_is_end(r)).map(|r| r.rec_end).collect();
-    let mut out = run_conn_with(inner, &plan, knobs, &ConnOpts { mode: HandlerMode::Seq, rfault: RFault::None, wfault: WFault::None, shutdown: None, strict_no_spurious: true }, |w| {
+    let mut out = run_conn_with(inner, &plan, knobs, &ConnOpts { mode: hmode, rfault: RFault::None, wfault: WFault::None, shutdown: None, strict_no_spurious: true }, |w| {
         w.owed_triggers = triggers.clone();
     });
     give_back(cx, &mut out);
@@ -1338,7 +1379,7 @@ fn first_begin(plan: &Plan, rp: &ReqPlan) -> usize {
 }
 
 
-pub const C09_PROBES: &[&str] = &["vectored_read", "writeable_true_sampled", "writeable_false_sampled", "eof_observed", "filter_role"];
+pub const C09_PROBES: &[&str] = &["async_reselect_current", "vectored_read", "writeable_true_sampled", "writeable_false_sampled", "eof_observed", "filter_role"];
 
 /// C09: async read interfaces and output gating.
 pub fn c09(cx: &mut Ctx) -> VResult {
